@@ -121,7 +121,12 @@ def run_check(pid, tier, seed, args):
 
     # 4. search when proof / correspondence broke ----------------------------------------------
     broke = bool(proof['bad']) or bool(ctx.mismatches)
-    if broke and not ctx.violations and hasattr(mod, 'search'):
+    known_keys = {k.get('key') for k in open_findings}
+
+    def unlisted():
+        return [v for v in ctx.violations
+                if not (isinstance(v[1], dict) and v[1].get('finding_key') in known_keys and v[1].get('finding_key') is not None)]
+    if broke and not unlisted() and hasattr(mod, 'search'):
         ctx.note('proof or correspondence broke: running failing-input search')
         mod.search(ctx)
 
